@@ -68,6 +68,18 @@ def cases(draw):
         if dc["positive"] is None:
             dc["extra_attrs"] = {"axis": "Z"}
         depths.append(dc)
+    if conv not in c12.DEPTH_NAMES and draw(st.integers(0, 2)) == 0:
+        # a second coordinate for the same layers on the same dimension: heights above the sea
+        # floor datum next to depths, i.e. the negated values with the opposite polarity (or a
+        # plain duplicate).  One flip of the shared dimension must serve both.
+        first = depths[0]
+        if draw(st.booleans()):
+            twin_values = [-v for v in first["values"]]
+            twin_positive = "up" if guessed_positive(first) == "down" else "down"
+        else:
+            twin_values, twin_positive = list(first["values"]), guessed_positive(first)
+        depths.append({"name": "height", "dim": first["dim"], "values": twin_values,
+                       "positive": twin_positive, "as": draw(st.sampled_from(["coord", "var"]))})
     spec["depths"] = depths
     extra = {dc["dim"]: len(dc["values"]) for dc in depths}
     if draw(st.booleans()):
@@ -231,6 +243,8 @@ def check_case(case, ctx):
         ctx.label(f"positive:{dc.get('positive')}")
         ctx.label("bounds" if dc.get("bounds") is not None else "no_bounds")
         ctx.label("dimension_coordinate" if dc["name"] == dc["dim"] else "auxiliary_coordinate")
+    if len({dc["dim"] for dc in spec["depths"]}) < len(spec["depths"]):
+        ctx.label("two_coordinates_on_one_dimension")
     ctx.label(f"options:{pd}/{d2s}")
     ctx.label("how:" + case["how"])
     bounds = any(dc.get("bounds") is not None for dc in spec["depths"])
